@@ -183,6 +183,11 @@ Definition qsize (q : qmsg) : nat := S (msizes (q_kids q)).
 
 Definition is_some {A} (o : option A) : bool := match o with Some _ => true | None => false end.
 
+Arguments phold !p /.
+Arguments pd2 !p /.
+Arguments pd3 !p /.
+Arguments psize !p /.
+
 (* ---- the invariant ------------------------------------------------------------------------ *)
 
 Record InvL (s : state) : Prop := {
@@ -387,7 +392,7 @@ Proof.
   intros A Hk Hpc.
   pose proof (sumn_ge phold _ _ _ Hk) as G.
   destruct p as [o [a|] pc].
-  - unfold phold in G. simpl in G. destruct pc; simpl in *; try contradiction; lia.
+  - destruct pc; simpl in *; try contradiction; lia.
   - assert (Hm : nth_error (st_main s) o = Some MWaitStd).
     { apply (ia_std _ A k (mkProc o None pc) Hk eq_refl). simpl. destruct pc; simpl in Hpc; try contradiction; discriminate. }
     pose proof (sumn_ge mpend _ _ _ Hm) as G'. simpl in G'. lia.
@@ -411,9 +416,13 @@ Proof.
   pose proof (fun x => sumn_upd mpend i x pc _ Hi) as U1.
   pose proof (fun x => sumn_upd md2 i x pc _ Hi) as U2.
   pose proof (fun x => sumn_upd md3 i x pc _ Hi) as U3.
+  pose proof (sumn_ge mpend _ _ _ Hi) as G1.
+  pose proof (sumn_ge md2 _ _ _ Hi) as G2.
+  pose proof (sumn_ge md3 _ _ _ Hi) as G3.
   unfold step_main in H.
   destruct pc; simpl in H; unfold a_lock, a_set_body, a_close_ready, a_close_quiet, a_unlock in H;
     simpl in H; step_cases H;
+    repeat (match goal with |- context[if ?c then _ else _] => destruct c eqn:? end);
     (constructor; [ | exact Hstd | | | ]); clear Hstd; unfold nD2, nD3;
     destruct (sp_zero (st_pool s)) eqn:Ez; destruct (sp_quiet (st_pool s)) eqn:Eq;
     simpl in *; rewrite ?Ez, ?Eq; simpl;
@@ -425,5 +434,7 @@ Proof.
              | md3 => let U := fresh in pose proof (U3 x) as U; simpl in U; revert U
              end;
              generalize (sumn f (upd i x (st_main s)))
-           end; intros; try lia.
+           end; intros;
+    repeat match goal with |- context[if ?c then _ else _] => destruct c; simpl end;
+    rewrite ?Ez, ?Eq; simpl; try lia.
 Qed.
